@@ -92,16 +92,8 @@ pub fn c05_c06(d: &Digest, s: usize, out: &mut Vec<Violation>) {
                         if len != cap {
                             v(out, "C05", "blocked-while-room", format!("store {s}: {} dispatch call(s) still waiting at quiescence while the queue holds {len} of {cap}", pending.len()));
                         }
-                        for p in &pending {
-                            let on = blocked.iter().find(|b| b.0 == p.tid).map(|b| b.1.clone());
-                            let fine = matches!(on, Some(BlockOn::Mutex)) || on == Some(BlockOn::ChanSend(dch));
-                            if !fine {
-                                v(out, "C05", "waiting-elsewhere", format!("store {s}: a pending dispatch is blocked on {:?}, not on the dispatch queue", on));
-                            }
-                        }
-                        if !blocked.iter().any(|b| b.1 == BlockOn::ChanSend(dch)) {
-                            v(out, "C05", "nobody-on-queue", format!("store {s}: dispatches pending at quiescence but none waits on the queue"));
-                        }
+                        // (what primitive the waiting callers sleep on is the implementation's
+                        // business: a full queue is reason enough to wait, whatever they wait on)
                     }
                 }
                 _ => {}
